@@ -159,6 +159,52 @@ func workerC17(args []string) int {
 		}()
 		cfg := fmt.Sprintf(`{"mode":"crl_only","crl_config":{"work_dir":%q,"storage_type":%q,"signature_validation_mode":%q,"update_interval":"1h","crl_urls":[%q]}}`, dir, store, sigMode, path)
 		v := &revocation.CertRevocationValidator{}
+		if len(args) >= 6 {
+			// history: the big list is named by a certificate's distribution point and arrives AFTER the validator has met a
+			// damaged store of another location in its work_dir (left by a crash of an earlier run)
+			cfg = fmt.Sprintf(`{"mode":"crl_only","crl_config":{"work_dir":%q,"storage_type":%q,"signature_validation_mode":%q,"update_interval":"1h"}}`, dir, store, sigMode)
+			ca := pki.NewCA(pki.CAOpts{Name: "C17 CA", Serial: 1700})
+			chainA := pki.Chain(ca.Leaf(pki.LeafOpts{CN: "sibling", Serial: big.NewInt(1701), CDP: []string{args[5]}}).Cert, ca)
+			chainB := pki.Chain(ca.Leaf(pki.LeafOpts{CN: "big", Serial: big.NewInt(1702), CDP: []string{path}}).Cert, ca)
+			v0 := &revocation.CertRevocationValidator{}
+			if err := caddy.StrictUnmarshalJSON([]byte(cfg), v0); err != nil {
+				return 2
+			}
+			if err := v0.Provision(caddy.Context{}); err != nil {
+				fmt.Fprintln(os.Stderr, "provision (earlier run):", err)
+				return 3
+			}
+			v0.VerifyClientCertificate(nil, chainA)
+			v0.Cleanup()
+			damaged := 0
+			filepath.Walk(dir, func(p string, info os.FileInfo, err error) error {
+				if err == nil && !info.IsDir() && (info.Name() == "CURRENT" || strings.HasPrefix(info.Name(), "MANIFEST")) {
+					os.WriteFile(p, []byte("MAN"), 0o644)
+					damaged++
+				}
+				return nil
+			})
+			if damaged == 0 {
+				fmt.Fprintln(os.Stderr, "no store of the earlier run found to damage")
+				return 3
+			}
+			if err := caddy.StrictUnmarshalJSON([]byte(cfg), v); err != nil {
+				return 2
+			}
+			if err := v.Provision(caddy.Context{}); err != nil {
+				fmt.Fprintln(os.Stderr, "provision:", err)
+				return 3
+			}
+			v.VerifyClientCertificate(nil, chainA) // meets the damaged store; whatever the verdict
+			enc.Encode(memEvent{Ev: "reset", Run: fmt.Sprintf("%s/%s/%d/after-damaged-sibling", mode, store, n), Heap: liveHeapKiB()})
+			v.VerifyClientCertificate(nil, chainB)
+			time.Sleep(50 * time.Millisecond)
+			close(stop)
+			enc.Encode(memEvent{Ev: "sample", N: n, Heap: maxHeap.Load()})
+			enc.Encode(memEvent{Ev: "done", N: n, Heap: liveHeapKiB()})
+			v.Cleanup()
+			return 0
+		}
 		if err := caddy.StrictUnmarshalJSON([]byte(cfg), v); err != nil {
 			return 2
 		}
@@ -287,6 +333,8 @@ type c17Run struct {
 	NoLF  bool   // DER without any line feed byte before its crlExtensions
 	Alg   string // "" = ecdsaWithSHA256; otherwise another algorithm (a list the implementation does not accept is no case)
 	Sig   string // validator path: signature validation mode ("" = none); the signer of the big lists is not configured as trusted
+	// Sibling: the big list is named by a distribution point and arrives after the validator met the damaged store of another location
+	Sibling bool
 }
 
 // C17 — streaming memory bound.
@@ -332,6 +380,9 @@ func C17(c *vk.Ctx) {
 			files[fmt.Sprintf("%d-ed25519-%v", n, fat)] = p
 		}
 	}
+	if err := buildBigCRL(filepath.Join(dir, "sibling.crl"), 50, false, false); err != nil {
+		c.Infra("build sibling crl: %v", err)
+	}
 	srv := httptest.NewServer(http.FileServer(http.Dir(dir)))
 	defer srv.Close()
 	runs := []c17Run{}
@@ -341,7 +392,9 @@ func C17(c *vk.Ctx) {
 			c17Run{Mode: "reader", Store: "none", N: n, NoLF: true}, c17Run{Mode: "validator", Store: "disk", N: n, NoLF: true},
 			// the list is taken in although its signer cannot be verified (verify_log): that path reads the same file
 			c17Run{Mode: "validator", Store: "disk", N: n, Sig: "verify_log"},
-			c17Run{Mode: "reader", Store: "none", N: n, Alg: "ed25519"}, c17Run{Mode: "validator", Store: "disk", N: n, Alg: "ed25519"})
+			c17Run{Mode: "reader", Store: "none", N: n, Alg: "ed25519"}, c17Run{Mode: "validator", Store: "disk", N: n, Alg: "ed25519"},
+			// the bound is a bound of the configured path whatever happened before: a store of another location that a crash left damaged
+			c17Run{Mode: "validator", Store: "disk", N: n, Sibling: true})
 	}
 	if c.Thorough() {
 		runs = append(runs, c17Run{Mode: "reader", Store: "disk", N: n2, Pem: true, NoLF: false}, c17Run{Mode: "reader", Store: "memory", N: n1, Pem: false, NoLF: false}, c17Run{Mode: "reader", Store: "disk", N: n2, NoLF: true})
@@ -366,7 +419,11 @@ func C17(c *vk.Ctx) {
 		if r.Sig != "" {
 			wmode += ":" + r.Sig
 		}
-		cmd := exec.Command(self, "worker", "c17", wmode, arg, strconv.Itoa(r.N), r.Store, out)
+		wargs := []string{"worker", "c17", wmode, arg, strconv.Itoa(r.N), r.Store, out}
+		if r.Sibling {
+			wargs = append(wargs, srv.URL+"/sibling.crl")
+		}
+		cmd := exec.Command(self, wargs...)
 		cmd.Env = os.Environ()
 		if b, err := cmd.CombinedOutput(); err != nil {
 			if r.Alg != "" {
@@ -404,6 +461,9 @@ func C17(c *vk.Ctx) {
 		if r.Alg != "" {
 			key += "/alg=" + r.Alg
 		}
+		if r.Sibling {
+			key += "/after-damaged-sibling"
+		}
 		if maxHeap[key] == nil {
 			maxHeap[key] = map[int]int64{}
 		}
@@ -431,7 +491,7 @@ func C17(c *vk.Ctx) {
 		validated++
 		c.Eval(fmt.Sprintf("%+v", r))
 		if res.Violation != "" {
-			c.Violation(fmt.Sprintf("memory-grows-with-entries:%s:store=%s:pem=%v:nolf=%v:sig=%s", r.Mode, r.Store, r.Pem, r.NoLF, r.Sig),
+			c.Violation(fmt.Sprintf("memory-grows-with-entries:%s:store=%s:pem=%v:nolf=%v:sig=%s%s", r.Mode, r.Store, r.Pem, r.NoLF, r.Sig, map[bool]string{true: ":after-damaged-sibling"}[r.Sibling]),
 				fmt.Sprintf("trace of reading %d entries violates heap <= C0 + C1*(held+resident) with C0 = %d KiB, C1 = %d: peak live heap %d KiB (first sample %d KiB)", r.N, c0, c1, peak, first.Heap),
 				map[string]any{"run": r, "peak_kib": peak, "first_kib": first.Heap, "tlc": firstLines(res.Violation, 6)})
 		}
